@@ -464,6 +464,30 @@ func Replay[C any](t *testing.T, s *Spec[C]) {
 	fmt.Printf("REPLAY-PASS name=%s\n", s.Name)
 }
 
+// Fuzz exposes the spec to Go's native coverage-guided fuzzer: the fuzzer's
+// bytes are rapid's bit stream, so the generator and the oracle are the ones of
+// the rapid search. A failing case is written to $VERIF_FAILDIR like in Check
+// (the saved corpus entry under testdata/fuzz is removed by the driver).
+func Fuzz[C any](f *testing.F, s *Spec[C]) {
+	if os.Getenv("VERIF_REPLAY") != "" {
+		f.Skip("replay mode")
+	}
+	f.Fuzz(rapid.MakeFuzz(func(rt *rapid.T) {
+		c := s.Gen(rt)
+		raw, err := json.Marshal(c)
+		if err != nil {
+			panic(fmt.Sprintf("kit: case not serialisable: %v", err))
+		}
+		o := &Obs{}
+		fl := Exec(s, c, o)
+		if fl == nil || KnownSig(s.Property, fl.Sig) {
+			return
+		}
+		writeFail(s.Property, s.Name, raw, fl, "fail")
+		rt.Fatalf("FAIL %s/%s sig=%s: %s", s.Property, s.Name, fl.Sig, fl.Msg)
+	}))
+}
+
 // Both registers the usual pair: generated search, or replay when VERIF_REPLAY is set.
 func Both[C any](t *testing.T, s *Spec[C]) {
 	if os.Getenv("VERIF_REPLAY") != "" {
